@@ -73,6 +73,15 @@ CORE_SMILES = [
     'CCN(CC)CC.OC(=O)C(=C)C(O)=O', 'CCO.CN', 'CCCC[O-]', 'C[N+](C)(C)CCO.[Cl-]', 'OC(=O)C',                    # ... and atoms of one kind with / without charge
 ]
 _CORE_SET = set(CORE_SMILES)
+# molecules that are observed (and copied) only after an in-place normaliser ran on them, and objects derived from a molecule
+NORM_ITEMS = [('C1=CC=CC=C1C', 'thiele'), ('c1ccccc1O', 'kekule'), ('C1=CC=C2C=CC=CC2=C1', 'thiele+kekule'), ('OC(=O)C1=CC=CC=C1N(=O)=O', 'canonicalize'),
+              ('CN(=O)=O', 'standardize'), ('C[C@H](N)C(=O)O', 'explicify_hydrogens'), ('[H]C([H])([H])[C@]([H])(N)C(O)=O', 'implicify_hydrogens'),
+              ('C[C@H](N)C(=O)O', 'explicify_hydrogens+implicify_hydrogens'), ('C/C=C/C=C\\C', 'explicify_hydrogens'), ('[13CH3]C(=O)O', 'clean_isotopes'),
+              ('C[C@H](O)[C@@H](O)C', 'clean_stereo'), ('CC(=O)[O-].[NH4+]', 'neutralize'), ('O=C1C=CC=CN1', 'thiele'), ('Oc1ccccn1', 'canonicalize'),
+              ('N1C=Cn2cccc12', 'thiele'), ('c1ccc2[nH]ccc2c1', 'kekule+thiele'), ('C[N+](C)(C)CC([O-])=O', 'standardize+neutralize'),
+              ('Cl[Pt](Cl)(N)N', 'remove_coordinate_bonds'), ('CC=[C@]=CC', 'explicify_hydrogens'), ('C[C@H]1CC[C@@H](C)CC1', 'explicify_hydrogens+implicify_hydrogens')]
+DERIVED_ITEMS = [(s, how) for s in ('C[C@H]1CC[C@@H](C)CC1', 'CC(=O)Oc1ccccc1C(O)=O', 'C/C=C/C(=O)N[C@@H](C)C(O)=O', 'C1CC2CCC1CC2', '[NH3+]CC([O-])=O.CCO')
+                 for how in ('sub', 'aug', 'union', 'split', 'remap', 'keep')]
 FILES = ['isomorphism.sdf', 'mcs.sdf', 'standardize.sdf', 'arenes.sdf', 'hbonds.sdf', 'depict.sdf', 'implicit.sdf',
          'morgan_ruiner.sdf', 'stereo.sdf', 'MR.rdf', 'ions.rdf', 'standardize.rdf', 'implicit.mrv', 'cycle.sdf']
 RXN_OBS = ['rxn_str', 'rxn_fmt_m', 'rxn_fmt_h', 'rxn_fmt_ns', 'rxn_fmt_A', 'rxn_cgr', 'rxn_cgr_order', 'rxn_centers', 'rxn_canonicalize', 'rxn_standardize',
@@ -113,6 +122,8 @@ def full_corpus():
         out += [['edit', s, k] for k, s in enumerate(EXTRA_SMILES[:30])]
         out += [['rxnsmi', s] for s in RXN_SMILES]
         out += [['smarts', s] for s in QUERY_SMARTS]
+        out += [['norm', s, meth] for s, meth in NORM_ITEMS]
+        out += [['derived', s, how] for s, how in DERIVED_ITEMS]
         for f, n in (('ions.rdf', 1), ('reaction_centerslist.rdf', 2), ('standardize.rdf', 6)):
             out += [['rxnfile', f, k] for k in range(n)]
         _corpus_cache = out
@@ -416,7 +427,7 @@ def _main(a, scratch):
     n = min(T['mols'], len(corpus_all))
     core_idx = [k for k, c in enumerate(corpus_all) if c[0] == 'smi' and c[1] in CORE_SMILES] + \
                [k for k, c in enumerate(corpus_all) if c[0] in ('rxnsmi',)][:6] + \
-               [k for k, c in enumerate(corpus_all) if c[0] == 'smarts'] + \
+               [k for k, c in enumerate(corpus_all) if c[0] in ('smarts', 'norm', 'derived')] + \
                [k for k, c in enumerate(corpus_all) if c[0] == 'rxnsmi' and (':11]' in c[1] or '[CH2]' in c[1] or '[CH3].' in c[1]
                                                                              or '[O]' in c[1] or '[CH]' in c[1] or '>N>' in c[1] or '[K+]' in c[1] or 'ClCCl' in c[1] or '@' in c[1] or '/' in c[1])]
     first = core_idx + [k for k in special[:n // 4] if k not in set(core_idx)]
